@@ -33,7 +33,7 @@ for t in $TARGETS; do
     # jobs 1-2: short inputs, plain coverage; jobs 3+: long inputs with value profile (comparison
     # operands as feedback: lets the fuzzer climb counters and thresholds that plain edge
     # coverage cannot see)
-    if [ "$j" -le 2 ]; then EXTRA="-max_len=256"; else EXTRA="-max_len=2048 -use_value_profile=1"; fi
+    if [ "$j" -le 2 ]; then EXTRA="-max_len=256"; else EXTRA="-max_len=8192 -use_value_profile=1"; fi
     ( cd "$w" && PCKB_PROP="$ID" timeout 3000 "$TDIR/$t" corpus -runs="$RUNS" -seed=$((SEED * 16 + j)) $EXTRA -len_control=0 \
         -artifact_prefix="$w/artifacts/" -print_final_stats=1 -verbosity=1 > "$w/log" 2>&1 ) &
   done
@@ -49,7 +49,7 @@ for t in $TARGETS; do
     arts=$(ls "$w/artifacts" 2>/dev/null | sed "s#^#\"$w/artifacts/#; s#\$#\"#" | paste -sd, -)
     start=$([ $((j % 2)) -eq 1 ] && echo seeded || echo empty)
     cat > "$STATS/$t-job$j.json" <<JSON
-{"target":"$t","job":$j,"oracle":"$ID","start_corpus":"$start","runs_requested":$RUNS,"mode":"$([ "$j" -le 2 ] && echo "max_len=256" || echo "max_len=2048,value_profile")","libfuzzer_seed":$((SEED * 16 + j)),"execs":${execs:-0},"cov":${cov:-0},"ft":${ft:-0},"corpus_units":$units,"corpus_dir":"$w/corpus","artifacts":[${arts:-}]}
+{"target":"$t","job":$j,"oracle":"$ID","start_corpus":"$start","runs_requested":$RUNS,"mode":"$([ "$j" -le 2 ] && echo "max_len=256" || echo "max_len=8192,value_profile")","libfuzzer_seed":$((SEED * 16 + j)),"execs":${execs:-0},"cov":${cov:-0},"ft":${ft:-0},"corpus_units":$units,"corpus_dir":"$w/corpus","artifacts":[${arts:-}]}
 JSON
   done
 done
